@@ -236,6 +236,53 @@ def body_thr(ctx, case):
         ctx.nontrivial(("thr", case))
 
 
+# ---------------------------------------------------------------- the confident-line test as PageDecoder applies it
+def strat_page_thr():
+    from hypothesis import strategies as st
+    thr = st.one_of(st.sampled_from([-1.0, 0.0, 1e-6, 0.05, 0.5, 0.999, 1.0, 2.0]), st.floats(0, 1, allow_nan=False))
+    return st.tuples(st.lists(st.tuples(st.integers(1, 8), st.integers(0, 2 ** 31 - 1), st.sampled_from([0.3, 2.0, 9.0])), min_size=1, max_size=4),
+                     st.lists(thr, min_size=2, max_size=4))
+
+
+def body_page_thr(ctx, case):
+    from pero_ocr.core.layout import PageLayout, RegionLayout, TextLine
+    from pero_ocr.document_ocr.page_parser import PageDecoder
+    from pero_ocr.decoding.decoders import GreedyDecoder, BLANK_SYMBOL
+    from scipy import sparse as sp
+    lines_spec, thrs = case
+    C = 4
+
+    def page():
+        pl = PageLayout(id="p", page_size=(10, 10))
+        reg = RegionLayout("r", np.zeros((4, 2)))
+        for i, (T, seed, scale) in enumerate(lines_spec):
+            rs = np.random.RandomState(seed)
+            x = (rs.uniform(-1, 1, size=(T, C)) * scale).astype(np.float32)
+            x[x == 0] = 0.1
+            reg.lines.append(TextLine(id="l%d" % i, logits=sp.csc_matrix(x), transcription="PRIOR"))
+        pl.regions = [reg]
+        return pl
+    kept = {}
+    for thr in sorted(set(thrs)):
+        dec = PageDecoder(GreedyDecoder(list("abc") + [BLANK_SYMBOL]), line_confidence_threshold=thr)
+        pl = ctx.must("process_page_raises", dec.process_page, page())
+        kept[thr] = [l.transcription == "PRIOR" and dec.lines_decoded <= len(lines_spec) for l in pl.lines_iterator()]
+        # independent float64 recomputation of the test
+        for l, k in zip(pl.lines_iterator(), kept[thr]):
+            x = l.get_dense_logits().astype(np.float64)
+            pmat = np.exp(x - np.logaddexp.reduce(x, axis=1)[:, None])
+            worst = pmat.max(axis=1).min()
+            if abs(worst - thr) > 1e-6:
+                ctx.check(k == (worst > thr), "page_decoder_confident_test_disagrees_with_min_max_posterior",
+                          lambda: "threshold %r min-max posterior %r line kept %r; case=%r" % (thr, worst, k, case))
+    ts = sorted(kept)
+    for a, b in zip(ts, ts[1:]):
+        ctx.check(all((not kb) or ka for ka, kb in zip(kept[a], kept[b])), "page_decoder_confident_test_not_monotone",
+                  lambda: "lines kept at threshold %r: %r, at %r: %r; case=%r" % (a, kept[a], b, kept[b], case))
+    if len(ts) >= 2 and any(kept[ts[0]]) and not all(kept[ts[-1]]):
+        ctx.nontrivial(("page_thr", case))
+
+
 # ---------------------------------------------------------------- bags
 def strat_bag():
     from hypothesis import strategies as st
@@ -291,5 +338,6 @@ UNITS = [
     Unit("lines", "given", body=body_line, strategy=strat_line, quick=1200, thorough=25000),
     Unit("alto_confidences", "given", body=body_alto, strategy=strat_line, quick=500, thorough=8000),
     Unit("threshold", "given", body=body_thr, strategy=strat_thr, quick=1000, thorough=20000),
+    Unit("page_decoder_threshold", "given", body=body_page_thr, strategy=strat_page_thr, quick=500, thorough=6000),
     Unit("bags", "given", body=body_bag, strategy=strat_bag, quick=1000, thorough=20000),
 ]
